@@ -79,6 +79,18 @@ def run(ctx):
                 a['factors_commodities'] = [a['factors_commodities'][0]] + [f * 2.0 ** -21 for f in a['factors_commodities'][1:]]
         sp['id'] += '_tiny'
     specs += tiny
+    # mixed scales: a tiny fixed demand (1 MWh in GW units) next to 'unlimited' capacities and prices per GWh
+    mixed = util.rescaled(gen.gen_many(ctx.seed, n // 4, dict(CFG, p_coarse=0.0, p_periodic=0.0, T=(6, 9), nodes=(2, 2), p_market=1.0,
+                                                              kinds={'Transport': 3, 'Storage': 3}), 'c01mx_'), 2.0 ** 20, 2.0 ** 7)
+    for sp in mixed:
+        node = sp['assets'][-1]['nodes'][-1]
+        sp['assets'].append({'kind': 'SimpleContract', 'name': 'tiny_demand', 'nodes': [node], 'min_cap': -2.0 ** -10, 'max_cap': -2.0 ** -10})
+        for a in sp['assets']:
+            if a['kind'] == 'Storage':
+                a['eff_in'] = 0.875
+        sp['id'] = sp['id'].replace('_resc', '_mixed')
+    util.add_split(mixed)
+    specs += mixed
     specs = ctx.specs(specs)
     res = C.run_impl('portfolio', specs)
     exprs, owners = [], []
